@@ -422,6 +422,10 @@ class ExprC10:
             targs = ", ".join([str(i), str(int(thr)), CXX_TY[ret]] + [CXX_TY[t] for t in tys])
             if under_retype:
                 return "sigc::ptr_fun(&av::leaf<%s>)" % targs
+            if fobj == "nx":
+                # a functor class whose call operator is declared noexcept (a non-throwing target; the model does not
+                # distinguish it: noexcept has no effect on what a correct adaptor does)
+                return "av::NxRec<%s>()" % ", ".join([str(i), CXX_TY[ret]] + [CXX_TY[t] for t in tys])
             return ("av::Rec<%s>()" if fobj else "&av::leaf<%s>") % targs
         if k == "QL":
             _, i, thr, ret, tys, fobj = e
@@ -918,6 +922,35 @@ class GenC10:
         e, sig, args = self.wrap_simple(e, wrap, sig, args)
         return {"expr": e, "sig": tuple(sig), "args": tuple(args), "route": route, "ret": base_ty(ExprC10.natural(e))}
 
+    # ---------------------------------------------------------------- noexcept getters of compose over a throwing setter
+    def nx_case(self, n, route, shape, x, two=False, wrap=None):
+        """compose(s, g) / compose(s, g1, g2) whose getter(s) are functor classes with a NOEXCEPT call operator and whose
+        setter throws type x: the exception must leave the composite like any other — to the caller ("plain"), to an
+        enclosing exception_catch with a total catcher ("catch"), a partial catcher that handles it ("catch-partial") or
+        does not ("catch-unhandled")"""
+        r = self.rng
+        self.nid = 0
+        sig = tuple(r.choice(TYS) for _ in range(n))
+        args = tuple(self.value(t, p) for p, t in enumerate(sig))
+        ret = r.choice(["v", "i", "l", "d"])
+        nx = lambda: ("L", self.fresh(), 0, r.choice(TYS), tuple(r.choice(TYS) for _ in range(n)), "nx")
+        if two:
+            g1, g2 = nx(), (nx() if r.chance(0.5) else self.leaf(n, "nonvoid", allow_throw=False))
+            s = ("L", self.fresh(), x, ret, (r.choice(TYS), r.choice(TYS)), r.chance(0.4))
+            e = ("C2", s, g1, g2)
+        else:
+            s = ("L", self.fresh(), x, ret, (r.choice(TYS),), r.chance(0.4))
+            e = ("C1", s, nx())
+        other = "2" if x == 1 else "1"
+        if shape == "catch":
+            e = ("EC", e, self.leaf(0, ret, allow_throw=False))
+        elif shape == "catch-partial":
+            e = ("EC", e, ("PC", self.fresh(), ret, r.choice([str(x), "12"])))
+        elif shape == "catch-unhandled":
+            e = ("EC", e, ("PC", self.fresh(), ret, other))
+        e, sig, args = self.wrap_simple(e, wrap, sig, args)
+        return {"expr": e, "sig": tuple(sig), "args": tuple(args), "route": route, "ret": base_ty(ExprC10.natural(e))}
+
     # ---------------------------------------------------------------- Json bound values, reference-typed bound arguments
     def bound_case(self, n, route, shape, wrap=None):
         """directed bind / bind_return cases over bound values that are not plain numbers.
@@ -1207,6 +1240,14 @@ def c10_has_ref_bound(e):
     if e[0] == "B" and any(len(b) == 3 for b in e[2]):
         return True
     return any(c10_has_ref_bound(x) for x in e[1:]
+               if isinstance(x, tuple) and x and isinstance(x[0], str) and x[0].isupper() and len(x[0]) <= 3)
+
+
+def c10_has_nx(e):
+    """is there a target whose call operator is declared noexcept"""
+    if e[0] == "L":
+        return e[5] == "nx"
+    return any(c10_has_nx(x) for x in e[1:]
                if isinstance(x, tuple) and x and isinstance(x[0], str) and x[0].isupper() and len(x[0]) <= 3)
 
 
